@@ -31,6 +31,7 @@ type mcCfg struct {
 	outs     []string
 	shutdown bool
 	orphans  bool
+	bodyDL   bool // the deviation BodyReadDeadline is enabled
 }
 
 func (m mcCfg) consts(gen bool) map[string]string {
@@ -44,7 +45,7 @@ func (m mcCfg) consts(gen bool) map[string]string {
 		"CALLS": setLit(m.calls), "NC1": fmt.Sprint(m.nc1), "WORKERS": fmt.Sprint(m.workers), "MEMLIMIT": fmt.Sprint(m.memLimit),
 		"CUTS": fmt.Sprint(m.cuts), "PROXY": fmt.Sprint(m.proxy), "CLOSES": fmt.Sprint(m.closes),
 		"TMO": setLit(m.tmo), "FF": setLit(m.ff), "CANCEL": setLit(m.cancel), "OUTS": strSetLit(m.outs),
-		"SHUTDOWN": b(m.shutdown), "ORPH": b(m.orphans), "GEN": b(gen),
+		"SHUTDOWN": b(m.shutdown), "ORPH": b(m.orphans), "GEN": b(gen), "BODYDL": b(m.bodyDL),
 	}
 }
 
@@ -56,7 +57,7 @@ var rpcActions = []string{"Invoke", "CtxCancel", "CtxDeadline", "SetupExpired", 
 	"CancelCall", "ReturnResult", "ReturnPending", "ClientRecv", "ConnDrop", "MassCancel", "ConnectFail", "Connect",
 	"CliCloseBegin", "RecvHdr", "AcquireMem", "RecvAbort", "GetWorker", "HandlerEnter", "HandlerSkipExpired", "HandlerExit",
 	"SendResponse", "ServerSend", "ServerSendLetsFin", "SrvConnStop", "OrphanRecv", "OrphanDrop", "SrvShutdown", "SrvCloseBegin",
-	"Cut", "SetProxy", "CliCloseDo", "CutDo", "ProxyDo", "SrvShutdownDo", "SrvCloseDo"}
+	"Cut", "SetProxy", "BodyReadDeadline", "CliCloseDo", "CutDo", "ProxyDo", "SrvShutdownDo", "SrvCloseDo"}
 
 // ---------------------------------------------------------------------------
 // scenario shapes
@@ -467,6 +468,7 @@ func runC38(c *core.Ctx) error {
 	mcs := []mcCfg{
 		{name: "one-conn-cancel-timeout", calls: []int{1, 2}, nc1: 2, workers: 1, memLimit: 1, tmo: []int{2}, cancel: []int{1}, outs: fewOuts, orphans: true},
 		{name: "two-clients-contention-close", calls: []int{1, 2}, nc1: 1, workers: 1, memLimit: 1, closes: 1, outs: []string{"ok", "cancelled"}, orphans: true},
+		{name: "two-clients-memory-wait-deadline", calls: []int{1, 2}, nc1: 1, workers: 1, memLimit: 1, outs: []string{"ok", "cancelled"}, orphans: true, bodyDL: true},
 		{name: "one-call-cut", calls: []int{1}, nc1: 1, workers: 1, memLimit: 1, cuts: 1, tmo: []int{1}, ff: []int{1}, cancel: []int{1}, outs: fewOuts, orphans: true},
 		{name: "one-conn-proxy-failfast", calls: []int{1, 2}, nc1: 2, workers: 1, memLimit: 1, proxy: 2, ff: []int{2}, outs: []string{"ok", "cancelled"}, orphans: true},
 		{name: "one-conn-shutdown", calls: []int{1, 2}, nc1: 2, workers: 1, memLimit: 1, cancel: []int{1}, outs: []string{"ok", "cancelled"}, shutdown: true, orphans: true},
